@@ -435,11 +435,11 @@ def run_c03(tier):
         fams['templates'] = fam_templates()
         fams['areas'] = fam_areas(1) + fam_areas(2)[::7] + fam_areas3()[::5]
         fams['dispatch'] = fam_dispatch()
-        fams['general'] = fam_general(2, ['', '항. 항.']) + fam_general(3, [''])[::15]
+        fams['general'] = fam_general(2, ['', '항. 항.']) + fam_general(3, [''])[::19]
         fams['resume'] = fam_resume(1) + fam_resume(2)[::14]
         fams['chars'] = fam_chars() + fam_prestate_values() + fam_prestate_size()
         fams['labels'] = fam_labels() + fam_bigindex() + fam_highstack() + fam_redundant_hearts()
-        fams['labelflow'] = labelflow_family()[::16]
+        fams['labelflow'] = labelflow_family()[::20]
         fams['scale'] = fam_scale(tier)
         standalone = fam_templates()[::12] + fam_chars()[::9] + [g + ' ' + t for _, g in GADGETS for _, t in TRIGGERS][::2]
     else:
